@@ -413,6 +413,8 @@ func (vc *VC) execRange(st *State, x *ast.RangeStmt, label string) []*State {
 			}
 		}
 	}
+	var curMS modSet // modified set of the loop (known after the dry run)
+	msKnown := false
 	var pre func(s *State) string    // loop guard in state s
 	var bind func(s *State)          // binds key/value at iteration start
 	var post func(s *State)          // advance
@@ -491,10 +493,24 @@ func (vc *VC) execRange(st *State, x *ast.RangeStmt, label string) []*State {
 		mkVis := func(s string) Term {
 			return Term{S: s, Sort: vsort, KT: mi.K, VT: types.Typ[types.Bool], KS: mi.ks, VS: "Bool"}
 		}
-		initGhost = func(s *State) { s.ghost[visName] = mkVis("((as const " + vsort + ") false)") }
+		// iteration counter (`as n`): a range over a map visits every key at most once, so while the map is not
+		// modified inside the loop the number of completed iterations is below its size whenever one more starts
+		entryCard := vc.mapCard(st, mi, rng.S)
+		mapUnmodified := func() bool { return msKnown && !curMS.heaps[mi.dn] && !curMS.heaps[mi.cn] }
+		initGhost = func(s *State) {
+			s.ghost[visName] = mkVis("((as const " + vsort + ") false)")
+			s.ghost[idxName] = intTerm("0")
+		}
 		havocGhost = func(h *State) {
 			v := vc.freshSort("vis", vsort)
 			h.ghost[visName] = mkVis(v.S)
+			k := vc.freshSort("n", "Int")
+			k.T = types.Typ[types.Int]
+			h.ghost[idxName] = k
+			h.assume("(<= 0 " + k.S + ")")
+			if mapUnmodified() {
+				h.assume("(<= " + k.S + " " + entryCard + ")")
+			}
 		}
 		pre = func(s *State) string {
 			d := vc.mapDom(s, mi, rng.S)
@@ -505,6 +521,9 @@ func (vc *VC) execRange(st *State, x *ast.RangeStmt, label string) []*State {
 			d := vc.mapDom(s, mi, rng.S)
 			s.assume(fmt.Sprintf("(and (select %s %s) (not (select %s %s)))", d, k.S, s.ghost[visName].S, k.S))
 			s.assume(vc.u.WF(k.S, mi.K, s.alloc))
+			if mapUnmodified() {
+				s.assume("(< " + s.ghost[idxName].S + " " + entryCard + ")")
+			}
 			s.ghost[curName] = k
 			v := vc.mapLookup(s, mi, rng.S, k.S)
 			setKV(s, &k, &v)
@@ -512,6 +531,7 @@ func (vc *VC) execRange(st *State, x *ast.RangeStmt, label string) []*State {
 		post = func(s *State) {
 			k := s.ghost[curName]
 			s.ghost[visName] = mkVis(store(s.ghost[visName].S, k.S, "true"))
+			s.ghost[idxName] = intTerm("(+ " + s.ghost[idxName].S + " 1)")
 		}
 	default:
 		vc.fail(x, "range over %v", rng.T)
@@ -543,6 +563,7 @@ func (vc *VC) execRange(st *State, x *ast.RangeStmt, label string) []*State {
 		return vc.unrollLoop(st, label, pre, iter)
 	}
 	ms := vc.dryRun(st, label, func(s *State) []*State { s.assume(pre(s)); return iter(s) })
+	curMS, msKnown = ms, true
 	vc.checkInvs(st, ls, "inv-entry", entry, n, vc.pos(x))
 	head := vc.havocFor(st, ms, ls, entry)
 	havocGhost(head)
